@@ -236,8 +236,13 @@ func (ms *Modules) resolveIdentities() []error {
 			if newValues[j].Name != newValues[k].Name {
 				return newValues[j].Name < newValues[k].Name
 			}
-			// Identities of different modules may share a name.
-			return newValues[j].modulePrefixedName() < newValues[k].modulePrefixedName()
+			// Identities of different modules may share a name, and
+			// so may those of two revisions of a submodule, which
+			// belong to the same module.
+			if a, b := newValues[j].modulePrefixedName(), newValues[k].modulePrefixedName(); a != b {
+				return a < b
+			}
+			return RootNode(newValues[j]).FullName() < RootNode(newValues[k]).FullName()
 		})
 		i.Identity.Values = newValues
 	}
